@@ -3,7 +3,7 @@ reg("C09",
     anchor_files=["src/hgraph/runtime/nested_graph_node.cpp", "include/hgraph/runtime/nested_graph_node.h", "include/hgraph/runtime/nested_bindings.h",
                   "include/hgraph/runtime/nested_graph_storage.h", "src/hgraph/runtime/graph.cpp", "include/hgraph/types/subgraph_wiring.h",
                   "src/hgraph/types/graph_wiring.cpp"],
-    quick=dict(defs=dict(NX=2, NT=2, DMAX=3, WMAX=5, DEPTH=2), symx=dict(shards=16, **{"max-wall": 900, "shard-depth": 12})),
+    quick=dict(defs=dict(NX=2, NT=2, DMAX=3, WMAX=5, DEPTH=2, PMAX=2), symx=dict(shards=16, **{"max-wall": 900})),
     thorough=dict(defs=dict(NX=3, NT=3, DMAX=3, WMAX=8, DEPTH=3), symx=dict(shards=16, **{"max-wall": 3000, "shard-depth": 8})),
     reach=["end", "two_output_ticks", "child_timer_fired_while_parent_idle", "child_timer_consecutive_steps", "pass_through_ticked",
            "captured_port_ticked", "unchecked_consumer", "ref_boundary_second_tick", "outer_tick_while_child_wakeup_pending", "parent_has_unrelated_earlier_wakeup", "deepest_mode_evaluated_children"],
@@ -11,7 +11,7 @@ reg("C09",
            "input; captured outer port added to the input; no input, internal timer only; stateful node with an Unchecked input; REF<TS<Int>> boundary fed by the plain input with a de-referencing consumer inside; sampler reading the input passively and waking itself by symbolic periods), each wired inline and as a "
            "nested child graph at depth 1..DEPTH, every mode built and run separately on the same script in one path; input script NX emissions (first offset "
            "symbolic in [0,DMAX] us, gaps in [1,DMAX] us, values in [-1e6,1e6]); captured port: an independent script of the same shape; internal timer: "
-           "evaluated at start, then NT wake-ups by symbolic deltas in [1,DMAX] us; for the internal-timer definitions an unrelated parent-level self-scheduling ticker (symbolic period in [1,DMAX] us, own recorder) in every mode; start symbolic in [0,1000] us after MIN_ST; window symbolic in [1,WMAX] us",
+           "evaluated at start, then NT wake-ups by symbolic deltas in [1,DMAX] us; for the internal-timer definitions an unrelated parent-level self-scheduling ticker (symbolic period in [1,PMAX] us, own recorder) in every mode; start symbolic in [0,1000] us after MIN_ST; window symbolic in [1,WMAX] us",
     outside="nested_<G>'s own template body (mirrored by hk/hk_c09.h, not executed: clang 14 cannot compile it); Scalar parameters of sub-graphs; structural "
             "(TSB/TSL) boundary inputs and outputs; REF boundaries whose reference re-points (the REF definition binds one fixed target); REF-typed outputs; sub-graphs with services or error outputs; "
             "map_/switch_/reduce/mesh child graphs (C10-C12); depth beyond DEPTH; more than NX input ticks / NT internal wake-ups",
